@@ -288,6 +288,38 @@ static void linked_roots_case(vh_rng* r, const char* who) {
   vh_count("roots_referenced_by_other_roots_and_thread_local_storage");
 }
 
+/* Plain managed objects (not roots) that only thread-local storage refers to: reachable, so no collection finalises
+** them; once taken out of the storage they are deleted by hand -- finalised exactly once. */
+enum { NTLS = 3 };
+static void __attribute__((noinline)) make_tls_only(vh_rng* r, uintptr_t* masked, int64_t* ids) {
+  static const char* KEYS[NTLS] = { "c06-tls-only-0", "c06-tls-only-1", "c06-tls-only-2" };
+  for (int i = 0; i < NTLS; i++) {
+    var t = new_probe(r, HK_MANAGED, &ids[i]);
+    set(current(Thread), $S((char*)KEYS[i]), t);
+    masked[i] = (uintptr_t)t ^ HIDE_MASK;
+    t = NULL;
+  }
+}
+static void tls_only_case(vh_rng* r, const char* who) {
+  static const char* KEYS[NTLS] = { "c06-tls-only-0", "c06-tls-only-1", "c06-tls-only-2" };
+  uintptr_t masked[NTLS]; int64_t ids[NTLS];
+  make_tls_only(r, masked, ids);
+  ring_scrub();
+  vh_op("%s three managed objects referenced by thread-local storage only; collect twice", who);
+  collect_now();
+  for (int i = 0; i < 40; i++) { int64_t id; var g = new_probe(r, HK_MANAGED, &id); g = NULL; }
+  collect_now();
+  for (int i = 0; i < NTLS; i++) {
+    vh_eval();
+    if (mo_state[ids[i]] != MO_CONSTRUCTED) { vh_violation("C06:tls:object-referenced-by-thread-local-storage-finalised", "managed object id %" PRId64 " that thread-local storage refers to is in state %d after two collections", ids[i], mo_state[ids[i]]); }
+  }
+  for (int i = 0; i < NTLS; i++) {
+    rem(current(Thread), $S((char*)KEYS[i]));
+    if (mo_state[ids[i]] == MO_CONSTRUCTED) { del((var)(masked[i] ^ HIDE_MASK)); expect_released(ids[i], "del-of-an-object-taken-out-of-thread-local-storage"); }
+  }
+  vh_count("managed_objects_referenced_by_thread_local_storage_only");
+}
+
 /* ---------- the mutator ---------- */
 
 static void run_ops(vh_rng* r, struct world* w, int nops, const char* who) {
@@ -398,7 +430,8 @@ static void run_ops(vh_rng* r, struct world* w, int nops, const char* who) {
     } else if (roll < 62 && !w->stopped) {
       family_case(r, who);
     } else if (roll < 63 && !w->stopped) {
-      if (vh_chance(r, 50)) { ring_case(r, who); } else { linked_roots_case(r, who); }
+      int pick = (int)vh_below(r, 3);
+      if (pick == 0) { ring_case(r, who); } else if (pick == 1) { linked_roots_case(r, who); } else { tls_only_case(r, who); }
     } else if (roll < 72) {
       if (h->p) { delete_held(h, w->stopped ? "-inside-stop-window" : ""); if (w->stopped) { vh_count("deletions_inside_stop_window"); } }
     } else if (roll < 80) {
